@@ -255,6 +255,14 @@ def streamCmd (arg : String) : String :=
      | "slicefrom" => streamOut (Str.sliceFromT k) src n
      | "prefixes" => streamOut Str.prefixesT src n
      | "everyother" => streamOut Str.everyOtherT src n
+     | "triple" => streamOut (Str.mapT (fun x => x + x * 2)) src n
+     | "prependlist" => streamOut (Str.prependListT (List.replicate k 0)) src n
+     | "addlist" => streamOut (Str.addListT ((List.range k).map (fun (i : Nat) => (i : Int) + 1))) src n
+     | "zipinc" => streamOut (Str.zipMapT (· + 1)) src n
+     | "interleavedbl" => streamOut (Str.interleaveMapT (· * 2)) src n
+     | "chunksinc" => streamOut (Str.chunksMapT k (fun x => 1 + x)) src n
+     | "flattenchunks" => streamOut Str.flattenChunks2T src n
+     | "uniq" => streamOut (Str.uniqT k) src n
      | "filtermod" => streamOut (Str.filterT (fun x => x % (k : Int) == 0) k) src n
      | _ => "BADMACHINE")
   | _ => "BADARG"
